@@ -295,7 +295,13 @@ pub fn run(ctx: &Ctx) {
   });
   ctx.subspace("hour lists of 4 x 400 consecutive days (from 0002-01-01, 1582-01-01, 2020-01-01, 9990-01-01), of 0001-01-07..02-20 and of the last 30 days of 9999: LunarDay 13 slots, SixtyCycleDay 12 slots", done, hdays.len() as u64);
   let tm = Terms::build(ctx, &civ);
-  let years = years_for(ctx, 1, 9997);
+  let mut years = years_for(ctx, 1, 9997);
+  if ctx.quick() {
+    // plus every 7th year of the whole range
+    years.extend((1..=9997isize).filter(|y| y % 7 == 0));
+    years.sort();
+    years.dedup();
+  }
   let done = par_chunks(ctx, 0, years.len(), 4, |a, b, l| {
     for i in a..b {
       for k in 0..12 {
